@@ -64,6 +64,7 @@ fn gens(tier: Tier) -> Vec<Gen> {
         Gen { name: "hostlist-env", count: hostlist_count(), exhaustive: true, run: run_hostlist_env },
         Gen { name: "env", count: tier.pick(20_000, 7u64.pow(8)), exhaustive: tier == Tier::Thorough, run: run_env },
         Gen { name: "end-to-end", count: tier.pick(200, 2_000), exhaustive: false, run: run_e2e },
+        Gen { name: "end-to-end-redirect", count: (4 * 4 * 3) as u64, exhaustive: true, run: run_e2e_redirect },
     ]
 }
 
@@ -345,4 +346,58 @@ fn run_e2e(ctx: &mut Ctx, rng: &mut Rng, _index: u64) {
         ctx.gray();
     }
     ctx.nontrivial(format!("e2e|{url}|{list:?}").as_bytes());
+}
+
+/// redirect between URLs that differ in scheme and/or host: the proxy decision is made per URL
+fn run_e2e_redirect(ctx: &mut Ctx, _rng: &mut Rng, index: u64) {
+    let urls = ["http://h.test/a", "https://h.test/a", "http://sub.h.test/a", "http://other.test/a"];
+    let from = urls[(index % 4) as usize];
+    let to = urls[((index / 4) % 4) as usize];
+    let mode = (index / 16) % 3; // 0: http proxy only, 1: both, 2: both + no-proxy h.test
+    if from == to {
+        ctx.gray();
+        return;
+    }
+    let mut b = ProxySettings::builder().http_proxy(Url::parse("http://proxy-h.test:3128").unwrap());
+    if mode >= 1 {
+        b = b.https_proxy(Url::parse("https://proxy-s.test").unwrap());
+    }
+    if mode == 2 {
+        b = b.add_no_proxy_host("h.test");
+    }
+    let settings = b.build();
+    let want: Vec<Option<Url>> = [from, to].iter().map(|u| settings.for_url(&Url::parse(u).unwrap()).cloned()).collect();
+    let to2 = to.to_owned();
+    let world = World::install(move |req, idx, _| {
+        // a CONNECT tunnel cannot be completed here: refuse it, the dial has been recorded
+        if req.proxy.is_some() && req.url.scheme() == "https" {
+            return Answer::Script(vec![Step::Data(b"HTTP/1.1 403 No\r\n\r\n".to_vec())], WriteFaults::default());
+        }
+        let resp = if idx == 0 { format!("HTTP/1.1 307 T\r\nLocation: {to2}\r\nContent-Length: 0\r\n\r\n").into_bytes() } else { OK_RESPONSE.to_vec() };
+        Answer::Script(vec![Step::Data(resp)], WriteFaults::default())
+    });
+    let _ = attohttpc::get(from).proxy_settings(settings.clone()).send();
+    ctx.count("e2e_cases", 1);
+    // the first hop may already be a refused tunnel: then there is no second dial
+    let first_is_tunnel = want[0].is_some() && from.starts_with("https");
+    let expect_dials = if first_is_tunnel { 1 } else { 2 };
+    if world.dial_count() != expect_dials {
+        ctx.violation("e2e-redirect-dials", format!("{} dials, expected {expect_dials}; from={from} to={to} mode={mode}", world.dial_count()));
+        return;
+    }
+    for i in 0..expect_dials {
+        let d = world.dial(i).req;
+        let url = Url::parse([from, to][i]).unwrap();
+        let (h, p, s) = match &want[i] {
+            Some(pu) => (pu.host_str().unwrap().to_owned(), pu.port_or_known_default().unwrap(), pu.scheme().to_owned()),
+            None => (url.host_str().unwrap().to_owned(), url.port_or_known_default().unwrap(), url.scheme().to_owned()),
+        };
+        if d.host != h || d.port != p || d.scheme != s {
+            ctx.violation(
+                if want[i].is_some() { "e2e-redirect:direct-but-proxy-expected" } else { "e2e-redirect:proxy-used-but-direct-expected" },
+                format!("hop {i} ({}) dialled {}://{}:{}, for_url says {:?}; from={from} to={to} mode={mode}", [from, to][i], d.scheme, d.host, d.port, want[i].as_ref().map(|u| u.as_str())),
+            );
+        }
+    }
+    ctx.nontrivial(format!("e2er{index}").as_bytes());
 }
